@@ -340,10 +340,11 @@ impl<D: Device, P: Protocol, S: Socket, TS: TimeSource> GenericCloud<D, P, S, TS
     fn crypto_housekeep(&mut self) -> Result<(), Error> {
         let mut msg = MsgBuffer::new(SPACE_BEFORE);
         let mut del: SmallVec<[SocketAddr; 4]> = smallvec![];
+        let mut del_pending: SmallVec<[SocketAddr; 4]> = smallvec![];
         for addr in self.pending_inits.keys().copied().collect::<SmallVec<[SocketAddr; 4]>>() {
             msg.clear();
             match self.pending_inits.get_mut(&addr).unwrap().every_second(&mut msg) {
-                Err(_) => del.push(addr),
+                Err(_) => del_pending.push(addr),
                 Ok(MessageResult::None) => (),
                 Ok(MessageResult::Reply) => self.send_to(addr, &mut msg)?,
                 Ok(_) => unreachable!(),
@@ -358,8 +359,11 @@ impl<D: Device, P: Protocol, S: Socket, TS: TimeSource> GenericCloud<D, P, S, TS
                 Ok(_) => unreachable!(),
             }
         }
-        for addr in del {
+        for addr in del_pending {
+            // A failed handshake attempt must not take down an established session with the same address
             self.pending_inits.remove(&addr);
+        }
+        for addr in del {
             if self.peers.remove(&addr).is_some() {
                 self.connect_sock(addr)?;
             }
@@ -823,10 +827,15 @@ impl<D: Device, P: Protocol, S: Socket, TS: TimeSource> GenericCloud<D, P, S, TS
         // HOT PATH
         let src = mapped_addr(src);
         debug!("Received {} bytes from {}", data.len(), src);
-        let msg_result = if let Some(init) = self.pending_inits.get_mut(&src) {
+        let is_init = is_init_message(data.message());
+        let msg_result = if !is_init && self.peers.contains_key(&src) {
+            // HOT PATH
+            // Traffic of an established session must not be shadowed by a handshake attempt from the same address
+            self.peers.get_mut(&src).unwrap().crypto.handle_message(data)
+        } else if let Some(init) = self.pending_inits.get_mut(&src) {
             // COLD PATH
             init.handle_message(data)
-        } else if is_init_message(data.message()) {
+        } else if is_init {
             // COLD PATH
             let mut result = None;
             if let Some(peer) = self.peers.get_mut(&src) {
@@ -858,9 +867,6 @@ impl<D: Device, P: Protocol, S: Socket, TS: TimeSource> GenericCloud<D, P, S, TS
                     }
                 }
             }
-        } else if let Some(peer) = self.peers.get_mut(&src) {
-            // HOT PATH
-            peer.crypto.handle_message(data)
         } else {
             // COLD PATH
             info!("Ignoring non-init message from unknown peer {}", addr_nice(src));
